@@ -163,6 +163,13 @@ fn exec_letters(w: &World, r: &mut rtlib::replica::MemReplica, label: &str, layo
             Letter::BogusCut(..) => "wrong-max-cut",
         };
         acc.outcome(class, 1);
+        if let Letter::Committed(x) = l {
+            let superseded = before.iter().filter(|&&e| w.anc[*x].has(e)).count();
+            if superseded >= 3 {
+                acc.count("steps_superseding_3_or_more_entries", 1);
+            }
+            acc.maximum("max_entries_superseded_by_one_step", superseded as u64);
+        }
         if class.ends_with("(full)") {
             acc.count("steps_on_full_cache", 1);
         }
